@@ -44,7 +44,9 @@ pub fn registry() -> Vec<Box<dyn Check>> {
         Box::new(sesscc::SessCc { id: "C01" }),
         Box::new(sesscc::SessCc { id: "C02" }),
         Box::new(sesscc::SessCc { id: "C08" }),
-        Box::new(group::GroupCheck),
+        Box::new(group::GroupCheck { id: "C10" }),
+        Box::new(group::GroupCheck { id: "C01G" }),
+        Box::new(group::GroupCheck { id: "C02G" }),
         Box::new(canon::CanonCheck),
         Box::new(extract::ExtractCheck),
         Box::new(matching::MatchCheck),
